@@ -103,7 +103,7 @@ def eq(x, y):
     elif isinstance(x, np.ndarray):
         return type(x) == type(y) and x.shape == y.shape and (0 in x.shape or np.all(veq(_cells(x), _cells(y))))
     elif isinstance(x, (pd.DataFrame, pd.Series)):
-        return type(x)==type(y) and _eq_attrs(x,y, attrs = ['__shape__', 'index', 'columns']) and (0 in x.shape or np.all(veq(x,y)))
+        return type(x)==type(y) and _eq_attrs(x,y, attrs = ['__shape__', 'index', 'columns']) and (0 in x.shape or np.all(veq(x.to_numpy(dtype = object), y.to_numpy(dtype = object)))) # column by column: the float64 view of an int column next to a float column rounds ints beyond 2**53
     elif isinstance(x, pd.Index):
         return isinstance(y, pd.Index) and eq(list(x), list(y)) # label by label: Index == Index parses strings into dates and is not nan-aware
     elif isinstance(x, dict):
